@@ -46,3 +46,30 @@ Lemma c02_world_refuted :
              view_flags sn = [(1, [fl_seen])] /\ view_flags (fresh_view w 0) = [(1, [])] /\
              ss_queue (nth 0 (w_sess w) (mkSess None (mkS [] []) [] false)) = [].
 Proof. vm_compute. eexists. repeat split. Qed.
+
+(* ---------- the repaired defect "flag change of a re-added message lost" ---------- *)
+(* observer's snapshot: messages 1 (uid 1) and 2 (uid 2); queued for it, in database order: message 1 removed, put back
+   as uid 3, then flagged with flag 5. *)
+Definition readd_snap : snap := [mkSmsg 1 1 []; mkSmsg 2 2 []].
+Definition readd_queue : list responder :=
+  [RExpunge 1; RExists 1 3 [] false false; RFetch 1 [5] FAdd false false false].
+
+(* old policy: a non-permitting flush (FETCH/STORE/SEARCH) followed by a permitting one (NOOP) *)
+Definition old_two_flushes (rs : list responder) (s : snap) : option snap :=
+  let '(p, q) := pop_go_old [] rs in
+  match run_responders p s with
+  | None => None
+  | Some (s1, _) => match run_responders q s1 with None => None | Some (s2, _) => Some s2 end
+  end.
+
+Definition new_two_flushes (rs : list responder) (s : snap) : option snap :=
+  match flush_raw false (mkS s rs) with
+  | None => None
+  | Some (st1, _) => match flush_raw true st1 with None => None | Some (st2, _) => Some (s_snap st2) end
+  end.
+
+Lemma old_policy_loses_flag_change :
+  option_map view_flags (old_two_flushes readd_queue readd_snap) = Some [(2, []); (3, [])] /\
+  option_map view_flags (new_two_flushes readd_queue readd_snap) = Some [(2, []); (3, [5])] /\
+  option_map (fun x => view_flags (fst x)) (run_responders readd_queue readd_snap) = Some [(2, []); (3, [5])].
+Proof. vm_compute. repeat split. Qed.
